@@ -99,6 +99,13 @@ func genC09(rng *rand.Rand, tier string) *sim.Plan {
 				op.HoldRel = true
 				op.PID = uint16(500 + msg)
 			}
+			if p.Clients[2].Ver == 5 && chance(rng, 0.5) {
+				// application properties must survive the store and the restart with the message
+				randMsgProps(rng, &op)
+				if chance(rng, 0.5) {
+					op.MsgExpiry = sim.U32(uint32(50000 + rng.IntN(1000)))
+				}
+			}
 			ph.Ops = append(ph.Ops, op)
 		}
 		return ph
@@ -239,11 +246,12 @@ func runC09(tb TB, p *sim.Plan) *sim.Outcome {
 		pid     uint16
 		kAck    int // publisher acknowledged (PUBACK / PUBREC) — -1 if not
 		held    bool
+		op      *sim.Op
 	}
 	var pubs []*pubFact
 	for _, o := range h.Ops {
 		if o.Op.K == "publish" && o.Op.C == 2 && o.Inv >= 0 {
-			pf := &pubFact{payload: o.Op.Payload, qos: o.Op.QoS, pid: o.PID, kAck: -1, held: o.Op.HoldRel}
+			pf := &pubFact{payload: o.Op.Payload, qos: o.Op.QoS, pid: o.PID, kAck: -1, held: o.Op.HoldRel, op: o.Op}
 			if o.Op.QoS == 1 && o.Ack != nil {
 				pf.kAck = kOf(o.Resp)
 			}
@@ -487,9 +495,31 @@ func runC09(tb TB, p *sim.Plan) *sim.Outcome {
 		}
 		// C09.redeliver: the never-acking subscriber gets every message whose publisher was acknowledged
 		gotB := map[int]map[string]int{0: {}, 1: {}}
+		pktB := map[int]map[string]*mqttc.Packet{0: {}, 1: {}}
 		for _, r := range b.H.Recs {
 			if r.Kind == "rx" && (r.C == 0 || r.C == 1) && r.Pkt.Type == mqttc.PUBLISH {
 				gotB[r.C][string(r.Pkt.Payload)]++
+				pktB[r.C][string(r.Pkt.Payload)] = r.Pkt
+			}
+		}
+		// C09.content: what comes out of the store after the restart is the message that went in
+		for c := 0; c <= 1; c++ {
+			for _, pf := range pubs {
+				pk := pktB[c][pf.payload]
+				if pk == nil {
+					continue
+				}
+				if pk.Topic != pf.op.Topic {
+					vs = append(vs, viol("C09", "content", "topic", "%s: message %q redelivered to %q under topic %q, published to %q", where, pf.payload, p.Clients[c].ID, pk.Topic, pf.op.Topic))
+				}
+				if p.Clients[c].Ver == 5 {
+					if d := msgPropsMismatch(pf.op, p.Clients[2].Ver == 5, pk); d != "" {
+						vs = append(vs, viol("C09", "content", "properties", "%s: message %q delivered to %q after the restart with %s", where, pf.payload, p.Clients[c].ID, d))
+					}
+					if pf.op.MsgExpiry != nil && (pk.Props == nil || pk.Props.MessageExpiry == nil || *pk.Props.MessageExpiry > *pf.op.MsgExpiry) {
+						vs = append(vs, viol("C09", "content", "message-expiry", "%s: message %q (expiry interval %d) delivered to %q after the restart with %s", where, pf.payload, *pf.op.MsgExpiry, p.Clients[c].ID, pk))
+					}
+				}
 			}
 		}
 		var s1 *subFact
